@@ -84,6 +84,83 @@ def fold_accumulators(fx, res):
     return out
 
 
+def checked_sub_map(fx, fid, ob):
+    """D-CSUB for `x.checked_sub(K).map(|d| d + C)` with constants C <= K: the closure only runs with d = x - K, so d + C <= x"""
+    from mir import op_const, strip_generics
+    if "::{closure" not in fid:
+        return None
+    parent = fid.split("::{closure")[0]
+    body = body_of(fx.fns[fid])
+    pbody = body_of(fx.fns[parent]) if parent in fx.fns else None
+    b = ob.get("block")
+    if body is None or pbody is None or b is None or body.argc < 2:
+        return None
+    t = body.term(b)
+    msg = t.get("msg") or {}
+    if t["k"] != "assert" or msg.get("k") != "Overflow" or msg.get("op") != "Add":
+        return None
+    cval = None
+    for par_op, c_op in ((msg["a"], msg["b"]), (msg["b"], msg["a"])):
+        pl = op_place(par_op)
+        c = op_const(c_op)
+        if pl is None or pl["p"] or c is None:
+            continue
+        l = pl["l"]
+        for _ in range(3):
+            sd = body.single_def(l)
+            if sd is not None and sd[2] == "assign" and sd[3]["k"] == "use" and op_place(sd[3]["a"]) is not None and not op_place(sd[3]["a"])["p"]:
+                l = op_place(sd[3]["a"])["l"]
+            else:
+                break
+        if l == 2:
+            cval = c
+    if not isinstance(cval, int) or cval < 0:
+        return None
+    span = fx.fns[fid].get("span") or {}
+    for pb, pt in pbody.calls():
+        if strip_generics(pt["callee"].get("path") or "") != "core::option::Option::map" or len(pt["args"]) != 2:
+            continue
+        a2 = pt["args"][1]
+        cty = (a2.get("const") or {}).get("ty") or (op_place(a2) or {}).get("ty") or ""
+        m_ = re.search(r"\{closure@([^:}]+):(\d+):", cty)
+        if not m_ or m_.group(1) != span.get("file") or int(m_.group(2)) != span.get("line"):
+            continue
+        rp = op_place(pt["args"][0])
+        sd = pbody.single_def(rp["l"]) if rp is not None and not rp["p"] else None
+        for _ in range(3):
+            if sd is not None and sd[2] == "assign" and sd[3]["k"] == "use" and op_place(sd[3]["a"]) is not None and not op_place(sd[3]["a"])["p"]:
+                sd = pbody.single_def(op_place(sd[3]["a"])["l"])
+            else:
+                break
+        if sd is None or sd[2] != "call" or strip_generics(sd[3]["callee"].get("path") or "").split("::")[-1] != "checked_sub" or len(sd[3]["args"]) != 2:
+            continue
+        def cev(op, depth=0):
+            """value of an operand computed from constants only (`2 * HEADER_SIZE`)"""
+            c_ = op_const(op)
+            if isinstance(c_, int) or depth > 4:
+                return c_ if isinstance(c_, int) else None
+            pl_ = op_place(op)
+            if pl_ is None:
+                return None
+            proj = [x for x in pl_["p"] if x != "deref"]
+            sd_ = pbody.single_def(pl_["l"])
+            if sd_ is None or sd_[2] != "assign":
+                return None
+            rv_ = sd_[3]
+            if rv_["k"] == "use" and not proj:
+                return cev(rv_["a"], depth + 1)
+            if rv_["k"] in ("bin", "checked") and (not proj or (len(proj) == 1 and isinstance(proj[0], dict) and proj[0].get("i") == 0)):
+                x_, y_ = cev(rv_["a"], depth + 1), cev(rv_["b"], depth + 1)
+                op_ = (rv_.get("op") or "").replace("WithOverflow", "")
+                if isinstance(x_, int) and isinstance(y_, int) and op_ in ("Add", "Mul", "Sub"):
+                    return x_ + y_ if op_ == "Add" else x_ * y_ if op_ == "Mul" else x_ - y_
+            return None
+        k = cev(sd[3]["args"][1])
+        if isinstance(k, int) and k >= cval:
+            return "the closure runs only on Some(x - %d) of checked_sub: adding %d stays at or below x" % (k, cval)
+    return None
+
+
 def operand_field(fx, fid, ob, which):
     """(ADT short name, field) of the struct field an operand of an Assert obligation was read from, however the access
     is spelled (through `self.a.b.c`, a `&mut` alias, an iterator item, ...); None when the operand is not a plain field read"""
@@ -573,6 +650,12 @@ class Engine:
             why = sum64(self.fx, fid, ob) or sum64_fold(self.fx, fid, ob, self.fold_acc)
             if why:
                 chk.ok(rule, key, "D-SUM64: " + why, site)
+                return
+        # ---- D-CSUB
+        if ob["kind"] == "assert" and ob["what"] == "Overflow(Add)":
+            why = checked_sub_map(self.fx, fid, ob)
+            if why:
+                chk.ok(rule, key, "D-CSUB: " + why, site)
                 return
         # ---- accepted invariants with side conditions
         for ai, acc in enumerate(self.accepted):
